@@ -191,7 +191,7 @@ def wigm_options(d):
 
 def meek_options(d, stratum='S1', rational=True):
     """S1 "supported": omega within the rule's own default for the arithmetic
-    (guarded: omega <= p//2, guard >= p//2; fixed: p >= 3, omega <= 2p//3);
+    (guarded: omega <= p//2, guard >= p//2; fixed: omega <= 2p//3; both p >= 3 - the guarded p = 2 drawn here is classified S2 by C08.in_S1);
     S2 "free": any precision >= 1, guard >= 0, omega 0..p."""
     a = d.int(0, 9)
     o = {}
